@@ -582,8 +582,80 @@ def plan_c18_ops(doc, man, args):
     return acts
 
 
+def _member_value(pi: dict):
+    k = pi["kind"]
+    if k == "StringProperty":
+        return "s-1"
+    if k == "IntProperty":
+        return 3
+    if k == "FloatProperty":
+        return 1.5
+    if k == "BooleanProperty":
+        return True
+    if k == "DateProperty":
+        return {"$t": "date", "v": "2020-01-02"}
+    if k == "DateTimeProperty":
+        return {"$t": "datetime", "v": "2020-01-02T03:04:05+00:00"}
+    if k == "UuidProperty":
+        return {"$t": "uuid", "v": "00000000-0000-4000-8000-0000000000aa"}
+    if k == "EnumProperty":
+        vals = list(pi["values"].values()) if isinstance(pi["values"], dict) else list(pi["values"])
+        return {"$t": "enum", "cls": pi["cls"], "v": vals[0]} if vals else None
+    if k == "LiteralEnumProperty":
+        vals = list(pi["values"])
+        return vals[0] if vals else None
+    if k == "ConstProperty":
+        return pi["const"]["raw"]
+    if k == "ListProperty":
+        inner = _member_value(pi["inner"])
+        return None if inner is None else {"$t": "list", "v": [inner]}
+    if k == "AnyProperty":
+        return "anyv"
+    return None
+
+
+def plan_c11(doc, man, args):
+    a = dict(args, per_model=8, calls_per_op=2)
+    a["import"] = True
+    out = plan_models(doc, man, a)
+    a["import"] = False
+    out += [x for x in plan_ops(doc, man, a) if x["a"] == "call"]
+    # encoder acceptance of every value admitted by a parameter annotation
+    for ep in man["endpoints"]:
+        if ep["bodies"]:
+            continue
+        base = {}
+        okb = True
+        for loc in ("path", "query", "header", "cookie"):
+            for p in ep["params"][loc]:
+                if p["required"]:
+                    v = _member_value(p if p["kind"] != "UnionProperty" else p["inners"][0])
+                    if v is None:
+                        okb = False
+                    base[p["python_name"]] = v
+        if not okb:
+            continue
+        mod = f"api.{ep['tag']}.{ep['module']}"
+        for loc in ("query", "header", "cookie"):
+            for p in ep["params"][loc]:
+                members = []
+                inners = p["inners"] if p["kind"] == "UnionProperty" else [p]
+                for i, pi in enumerate(inners):
+                    if pi["kind"] == "NoneProperty":
+                        members.append(("None", None))
+                    else:
+                        mv = _member_value(pi)
+                        if mv is not None:
+                            members.append((pi["kind"], mv))
+                if not p["required"]:
+                    members.append(("UNSET", {"$t": "unset"}))
+                for mname, mv in members:
+                    out.append({"a": "get_kwargs", "module": mod, "args": dict(base, **{p["python_name"]: mv}), "x": {"param": p["name"], "member": mname, "loc": loc}})
+    return out
+
+
 def plan_import(doc, man, args):
     return [{"a": "import_all"}]
 
 
-PLANS = {"models": plan_models, "ops": plan_ops, "import": plan_import, "models_given": plan_models_given, "defaults": plan_defaults, "c05": plan_c05, "c14": plan_c14, "c13": plan_c13, "c10": plan_c10, "c15": plan_c15, "c18_ops": plan_c18_ops}
+PLANS = {"models": plan_models, "ops": plan_ops, "import": plan_import, "models_given": plan_models_given, "defaults": plan_defaults, "c05": plan_c05, "c14": plan_c14, "c13": plan_c13, "c10": plan_c10, "c15": plan_c15, "c18_ops": plan_c18_ops, "c11": plan_c11}
